@@ -28,7 +28,7 @@ package simplewlru
 //@ // wsumH(a, vals, w, n): total weight of the entries of the elements a[0..n), where vals is the memory of
 //@ // Element.Value and w the memory of entry.weight (memory passed explicitly so that lemmas can relate two memories)
 //@ spec wsumH(a [1]*list.Element, vals [1]interface{}, w [1]uint, n int) int = ite(n <= 0, 0, wsumH(a, vals, w, n-1) + w[unbox(vals[a[n-1]], "*entry")])
-//@ spec wsum(c *Cache) int = wsumH(lel[c.evictList], heapof(all(list.Element).Value), heapof(all(entry).weight), llen[c.evictList])
+//@ spec cwsum(c *Cache) int = wsumH(lel[c.evictList], heapof(all(list.Element).Value), heapof(all(entry).weight), llen[c.evictList])
 //@ lemma wsum_ext(a [1]*list.Element, b [1]*list.Element, vals [1]interface{}, w [1]uint, n int) by induction(n)
 //@   requires forall(i, 0, n, a[i] == b[i])
 //@   ensures  wsumH(a, vals, w, n) == wsumH(b, vals, w, n)
@@ -45,7 +45,7 @@ package simplewlru
 //@   requires 0 <= k && k < n && b[0] == a[k] && forall(i, 0, k, b[i + 1] == a[i]) && forall(i, k + 1, n, b[i] == a[i])
 //@   ensures  wsumH(b, vals, w, n) == wsumH(a, vals, w, n)
 //@ // the sum depends only on the memory of the elements and entries it ranges over
-//@ lemma wsum_frame(a [1]*list.Element, vals [1]interface{}, vals2 [1]interface{}, w [1]uint, w2 [1]uint, n int) by induction(n)
+//@ lemma lwsum_frame(a [1]*list.Element, vals [1]interface{}, vals2 [1]interface{}, w [1]uint, w2 [1]uint, n int) by induction(n)
 //@   requires forall(i, 0, n, vals2[a[i]] == vals[a[i]] && w2[unbox(vals[a[i]], "*entry")] == w[unbox(vals[a[i]], "*entry")])
 //@   ensures  wsumH(a, vals2, w2, n) == wsumH(a, vals, w, n)
 //@ lemma wsum_upd(a [1]*list.Element, vals [1]interface{}, w [1]uint, n int, p *entry, x int) by induction(n)
@@ -66,39 +66,39 @@ package simplewlru
 //@   requires 0 <= j && !vis[ks[unbox(vals[a[j]], "*entry")]] && forall(i, 0, n, i != j ==> ks[unbox(vals[a[i]], "*entry")] != ks[unbox(vals[a[j]], "*entry")])
 //@   ensures  wsumV(a, vals, ks, w, vis[ks[unbox(vals[a[j]], "*entry")] := true], n) == wsumV(a, vals, ks, w, vis, n) - ite(j < n, w[unbox(vals[a[j]], "*entry")], 0)
 //@ // representation invariant: items and the eviction list hold the same entries, each under its own key
-//@ inv Cache cinv(c): c != nil && c.evictList != nil && c.items != nil && lwf(c.evictList) && len(c.items) == llen[c.evictList] &&
+//@ inv Cache lruinv(c): c != nil && c.evictList != nil && c.items != nil && lwf(c.evictList) && len(c.items) == llen[c.evictList] &&
 //@   forall(k interface{}, has(c.items, k) ==> inlist(c, c.items[k]) && typeis(c.items[k].Value, "*entry") && ent(c.items[k]) != nil && ent(c.items[k]).key == k) &&
 //@   forall(i, 0, llen[c.evictList], typeis(lel[c.evictList][i].Value, "*entry") && ent(lel[c.evictList][i]) != nil && has(c.items, ent(lel[c.evictList][i]).key) && c.items[ent(lel[c.evictList][i]).key] == lel[c.evictList][i] && ent(lel[c.evictList][i]).weight >= 0) &&
-//@   c.weight == wsum(c)
+//@   c.weight == cwsum(c)
 //@
 //@ func (*Cache).Contains
-//@   requires cinv(c)
+//@   requires lruinv(c)
 //@   ensures  result == lhas(c, key)
 //@ func (*Cache).Peek
-//@   requires cinv(c)
+//@   requires lruinv(c)
 //@   ensures  result1 == lhas(c, key) && (result1 ==> result0 == lval(c, key)) && (!result1 ==> result0 == nil)
 //@ func (*Cache).Len
-//@   requires cinv(c)
+//@   requires lruinv(c)
 //@   ensures  result == len(c.items)
 //@ func (*Cache).Weight
 //@   requires c != nil
 //@   ensures  result == c.weight
 //@ func (*Cache).Total
-//@   requires cinv(c)
+//@   requires lruinv(c)
 //@   ensures  result0 == c.weight && result1 == len(c.items)
 //@ func (*Cache).GetOldest
-//@   requires cinv(c)
+//@   requires lruinv(c)
 //@   ensures  result2 == (len(c.items) > 0)
 //@   ensures  result2 ==> result0 == ent(lel[c.evictList][llen[c.evictList] - 1]).key && lhas(c, result0) && result1 == lval(c, result0)
 //@   ensures  !result2 ==> result0 == nil && result1 == nil
 //@
 //@ // removeElement: the entry of e leaves the cache, everything else stays; the callback is called once with its key and value
 //@ func (*Cache).removeElement
-//@   requires cinv(c) && inlist(c, e)
+//@   requires lruinv(c) && inlist(c, e)
 //@   modifies c.items[ent(e).key], c.weight, lel[c.evictList], llen[c.evictList], lidx[*], lown[e], nEvict, gEvictKey, gEvictVal
 //@   hint use wsum_remove(old(lel[c.evictList]), lel[c.evictList], heapof(all(list.Element).Value), heapof(all(entry).weight), old(llen[c.evictList]), old(lidx[e])); use wsum_nonneg(old(lel[c.evictList]), heapof(all(list.Element).Value), heapof(all(entry).weight), old(llen[c.evictList]))
 //@   ensures  [gone] !lhas(c, old(ent(e).key)) && len(c.items) == old(len(c.items)) - 1
-//@   ensures  [inv] cinv(c)
+//@   ensures  [inv] lruinv(c)
 //@   ensures  [others] forall(k interface{}, k != old(ent(e).key) ==> lhas(c, k) == old(lhas(c, k)) && c.items[k] == old(c.items[k]))
 //@   ensures  [order] forall(i, 0, old(lidx[e]), lel[c.evictList][i] == old(lel[c.evictList][i])) && forall(i, old(lidx[e]), llen[c.evictList], lel[c.evictList][i] == old(lel[c.evictList][i + 1]))
 //@   ensures  [weight] c.weight == old(c.weight) - ent(e).weight
@@ -109,18 +109,18 @@ package simplewlru
 //@ spec within(c *Cache) bool = c.weight <= c.maxWeight && len(c.items) <= c.maxSize
 //@
 //@ func (*Cache).Remove
-//@   requires cinv(c)
+//@   requires lruinv(c)
 //@   modifies c.items[key], c.weight, lel[c.evictList], llen[c.evictList], lidx[*], lown[*], nEvict, gEvictKey, gEvictVal
-//@   ensures  cinv(c) && result == old(lhas(c, key)) && !lhas(c, key) && len(c.items) == old(len(c.items)) - ite(result, 1, 0)
+//@   ensures  lruinv(c) && result == old(lhas(c, key)) && !lhas(c, key) && len(c.items) == old(len(c.items)) - ite(result, 1, 0)
 //@   ensures  [others] forall(k interface{}, k != key ==> lhas(c, k) == old(lhas(c, k)) && c.items[k] == old(c.items[k]))
 //@   ensures  [weight] c.weight == ite(result, old(c.weight) - old(lwt(c, key)), old(c.weight))
 //@   ensures  [evict] nEvict == old(nEvict) + ite(result && c.onEvict != nil, 1, 0) && (result && c.onEvict != nil ==> gEvictKey == key && gEvictVal == old(lval(c, key)))
 //@
 //@ // RemoveOldest removes the entry at the back of the list (the least recently used one)
 //@ func (*Cache).RemoveOldest
-//@   requires cinv(c)
+//@   requires lruinv(c)
 //@   modifies c.items[*], c.weight, lel[c.evictList], llen[c.evictList], lidx[*], lown[*], nEvict, gEvictKey, gEvictVal
-//@   ensures  cinv(c) && result2 == old(len(c.items) > 0)
+//@   ensures  lruinv(c) && result2 == old(len(c.items) > 0)
 //@   ensures  result2 ==> result0 == old(ent(lel[c.evictList][llen[c.evictList] - 1]).key) && old(lhas(c, result0)) && result1 == old(lval(c, result0)) && !lhas(c, result0) && len(c.items) == old(len(c.items)) - 1
 //@   ensures  !result2 ==> result0 == nil && result1 == nil && len(c.items) == 0
 //@   ensures  [others] forall(k interface{}, k != result0 ==> lhas(c, k) == old(lhas(c, k)) && c.items[k] == old(c.items[k]))
@@ -129,9 +129,9 @@ package simplewlru
 //@   ensures  [evict] nEvict == old(nEvict) + ite(result2 && c.onEvict != nil, 1, 0)
 //@
 //@ func (*Cache).removeOldest
-//@   requires cinv(c)
+//@   requires lruinv(c)
 //@   modifies c.items[*], c.weight, lel[c.evictList], llen[c.evictList], lidx[*], lown[*], nEvict, gEvictKey, gEvictVal
-//@   ensures  cinv(c) && len(c.items) == old(len(c.items)) - ite(old(len(c.items)) > 0, 1, 0)
+//@   ensures  lruinv(c) && len(c.items) == old(len(c.items)) - ite(old(len(c.items)) > 0, 1, 0)
 //@   ensures  [removed] old(len(c.items)) > 0 ==> !lhas(c, old(ent(lel[c.evictList][llen[c.evictList] - 1]).key))
 //@   ensures  [others] forall(k interface{}, old(len(c.items)) == 0 || k != old(ent(lel[c.evictList][llen[c.evictList] - 1]).key) ==> lhas(c, k) == old(lhas(c, k)) && c.items[k] == old(c.items[k]))
 //@   ensures  [order] forall(i, 0, llen[c.evictList], lel[c.evictList][i] == old(lel[c.evictList][i]))
@@ -141,40 +141,40 @@ package simplewlru
 //@ // normalize evicts from the back of the list until the cache is within its bounds: what remains is a prefix of the
 //@ // old list (most recently used entries), nothing is added or changed
 //@ func (*Cache).normalize
-//@   requires cinv(c)
+//@   requires lruinv(c)
 //@   modifies c.items[*], c.weight, lel[c.evictList], llen[c.evictList], lidx[*], lown[*], nEvict, gEvictKey, gEvictVal
-//@   ensures  cinv(c) && within(c)
+//@   ensures  lruinv(c) && within(c)
 //@   ensures  [subset] forall(k interface{}, lhas(c, k) ==> old(lhas(c, k)) && c.items[k] == old(c.items[k]))
 //@   ensures  [lru] llen[c.evictList] <= old(llen[c.evictList]) && forall(i, 0, llen[c.evictList], lel[c.evictList][i] == old(lel[c.evictList][i]))
 //@   ensures  [evict] c.onEvict != nil ==> nEvict == old(nEvict) + old(len(c.items)) - len(c.items)
 //@   ensures  [noevict] c.onEvict == nil ==> nEvict == old(nEvict)
 //@   ensures  [minimal] (llen[c.evictList] < old(llen[c.evictList]) ==> c.weight + now(ent(old(lel[c.evictList])[llen[c.evictList]])).weight > c.maxWeight || llen[c.evictList] + 1 > c.maxSize)
 //@   loop 1 modifies c.items[*], c.weight, lel[c.evictList], llen[c.evictList], lidx[*], lown[*], nEvict, gEvictKey, gEvictVal
-//@   loop 1 invariant cinv(c)
+//@   loop 1 invariant lruinv(c)
 //@   loop 1 invariant forall(k interface{}, lhas(c, k) ==> old(lhas(c, k)) && c.items[k] == old(c.items[k]))
 //@   loop 1 invariant llen[c.evictList] <= old(llen[c.evictList]) && forall(i, 0, llen[c.evictList], lel[c.evictList][i] == old(lel[c.evictList][i]))
 //@   loop 1 invariant (c.onEvict != nil ==> nEvict == old(nEvict) + old(len(c.items)) - len(c.items)) && (c.onEvict == nil ==> nEvict == old(nEvict))
 //@   loop 1 invariant (llen[c.evictList] < old(llen[c.evictList]) ==> c.weight + now(ent(old(lel[c.evictList])[llen[c.evictList]])).weight > c.maxWeight || llen[c.evictList] + 1 > c.maxSize)
 //@
 //@ func (*Cache).Resize
-//@   requires cinv(c)
+//@   requires lruinv(c)
 //@   modifies c.maxWeight, c.maxSize, c.items[*], c.weight, lel[c.evictList], llen[c.evictList], lidx[*], lown[*], nEvict, gEvictKey, gEvictVal
-//@   ensures  cinv(c) && within(c) && c.maxWeight == maxWeight && c.maxSize == maxSize
+//@   ensures  lruinv(c) && within(c) && c.maxWeight == maxWeight && c.maxSize == maxSize
 //@   ensures  [subset] forall(k interface{}, lhas(c, k) ==> old(lhas(c, k)) && c.items[k] == old(c.items[k]))
 //@   ensures  [lru] llen[c.evictList] <= old(llen[c.evictList]) && forall(i, 0, llen[c.evictList], lel[c.evictList][i] == old(lel[c.evictList][i]))
 //@
 //@ // Get refreshes recency: the entry moves to the front, the contents do not change
 //@ func (*Cache).Get
-//@   requires cinv(c)
+//@   requires lruinv(c)
 //@   modifies lel[c.evictList], lidx[*]
 //@   hint use wsum_move(old(lel[c.evictList]), lel[c.evictList], heapof(all(list.Element).Value), heapof(all(entry).weight), llen[c.evictList], old(lidx[c.items[key]]))
-//@   ensures  cinv(c) && result1 == lhas(c, key) && (result1 ==> result0 == lval(c, key) && lel[c.evictList][0] == c.items[key]) && (!result1 ==> result0 == nil)
+//@   ensures  lruinv(c) && result1 == lhas(c, key) && (result1 ==> result0 == lval(c, key) && lel[c.evictList][0] == c.items[key]) && (!result1 ==> result0 == nil)
 //@   ensures  [keep] !result1 ==> forall(i, 0, llen[c.evictList], lel[c.evictList][i] == old(lel[c.evictList][i]))
 //@   ensures  [order] result1 ==> forall(i, 0, old(lidx[c.items[key]]), lel[c.evictList][i + 1] == old(lel[c.evictList][i])) && forall(i, old(lidx[c.items[key]]) + 1, llen[c.evictList], lel[c.evictList][i] == old(lel[c.evictList][i]))
 //@
 //@ // Keys lists the keys from the oldest (back of the list) to the newest
 //@ func (*Cache).Keys
-//@   requires cinv(c)
+//@   requires lruinv(c)
 //@   ensures  fresh(result) && len(result) == len(c.items) && forall(j, 0, len(result), result[j] == ent(lel[c.evictList][llen[c.evictList] - 1 - j]).key && lhas(c, result[j]))
 //@   loop 1 modifies keys[*]
 //@   loop 1 invariant 0 <= i && i <= llen[c.evictList] && len(keys) == llen[c.evictList] && arrfresh(keys, old(_alloc))
@@ -184,33 +184,33 @@ package simplewlru
 //@ // Add: the key maps to the new value and becomes the most recently used entry; other entries are only ever evicted
 //@ // (from the least recently used end), never changed; afterwards the cache is within its bounds
 //@ func (*Cache).Add
-//@   requires cinv(c) && wsum(c) + weight <= 18446744073709551615
+//@   requires lruinv(c) && cwsum(c) + weight <= 18446744073709551615
 //@   modifies c.items[*], c.weight, lel[c.evictList], llen[c.evictList], lidx[*], lown[*], nEvict, gEvictKey, gEvictVal, all(entry).value, all(entry).weight
 //@   at call simplewlru.Cache).normalize[1] hint assert lwf(c.evictList) && len(c.items) == llen[c.evictList]
 //@   at call simplewlru.Cache).normalize[1] hint assert forall(k interface{}, has(c.items, k) ==> inlist(c, c.items[k]))
 //@   at call simplewlru.Cache).normalize[1] hint assert forall(k interface{}, has(c.items, k) ==> typeis(c.items[k].Value, "*entry") && ent(c.items[k]) != nil && ent(c.items[k]).key == k)
 //@   at call simplewlru.Cache).normalize[1] hint assert forall(i, 0, llen[c.evictList], typeis(lel[c.evictList][i].Value, "*entry") && ent(lel[c.evictList][i]) != nil && has(c.items, ent(lel[c.evictList][i]).key) && c.items[ent(lel[c.evictList][i]).key] == lel[c.evictList][i])
-//@   at call simplewlru.Cache).normalize[1] hint use wsum_push(old(lel[c.evictList]), lel[c.evictList], heapof(all(list.Element).Value), heapof(all(entry).weight), old(llen[c.evictList])); use wsum_frame(old(lel[c.evictList]), old(heapof(all(list.Element).Value)), heapof(all(list.Element).Value), old(heapof(all(entry).weight)), heapof(all(entry).weight), old(llen[c.evictList]))
+//@   at call simplewlru.Cache).normalize[1] hint use wsum_push(old(lel[c.evictList]), lel[c.evictList], heapof(all(list.Element).Value), heapof(all(entry).weight), old(llen[c.evictList])); use lwsum_frame(old(lel[c.evictList]), old(heapof(all(list.Element).Value)), heapof(all(list.Element).Value), old(heapof(all(entry).weight)), heapof(all(entry).weight), old(llen[c.evictList]))
 //@   at call simplewlru.Cache).normalize[2] hint use wsum_nonneg(old(lel[c.evictList]), old(heapof(all(list.Element).Value)), old(heapof(all(entry).weight)), old(llen[c.evictList])); use wsum_move(old(lel[c.evictList]), lel[c.evictList], old(heapof(all(list.Element).Value)), old(heapof(all(entry).weight)), llen[c.evictList], old(lidx[c.items[key]])); use wsum_upd(lel[c.evictList], heapof(all(list.Element).Value), old(heapof(all(entry).weight)), llen[c.evictList], ent(c.items[key]), weight)
 //@   at call simplewlru.Cache).normalize[1] requires [weight_new] !old(lhas(c, key)) && c.weight == old(c.weight) + weight && lhas(c, key) && lval(c, key) == value && lwt(c, key) == weight && lel[c.evictList][0] == c.items[key] && len(c.items) == old(len(c.items)) + 1
 //@   at call simplewlru.Cache).normalize[2] requires [weight_upd] old(lhas(c, key)) && c.weight == old(c.weight) - old(lwt(c, key)) + weight && lhas(c, key) && lval(c, key) == value && lwt(c, key) == weight && lel[c.evictList][0] == c.items[key] && len(c.items) == old(len(c.items))
-//@   ensures  cinv(c) && within(c)
+//@   ensures  lruinv(c) && within(c)
 //@   hint use wsum_nonneg(lel[c.evictList], heapof(all(list.Element).Value), heapof(all(entry).weight), llen[c.evictList])
 //@   ensures  [heavy] weight > old(c.maxWeight) ==> !lhas(c, key)
 //@   ensures  [key] lhas(c, key) ==> lval(c, key) == value && lwt(c, key) == weight && lel[c.evictList][0] == c.items[key]
 //@   ensures  [others] forall(k interface{}, k != key && lhas(c, k) ==> old(lhas(c, k)) && c.items[k] == old(c.items[k]) && lval(c, k) == old(lval(c, k)) && lwt(c, k) == old(lwt(c, k)))
 //@
 //@ func NewWithEvict
-//@   ensures  result1 == nil ==> fresh(result0) && cinv(result0) && len(result0.items) == 0 && result0.weight == 0 && result0.maxWeight == maxWeight && result0.maxSize == maxSize && result0.onEvict == onEvict
+//@   ensures  result1 == nil ==> fresh(result0) && lruinv(result0) && len(result0.items) == 0 && result0.weight == 0 && result0.maxWeight == maxWeight && result0.maxSize == maxSize && result0.onEvict == onEvict
 //@   ensures  (result1 == nil) == (maxSize >= 0)
 //@ func New
-//@   ensures  result1 == nil ==> fresh(result0) && cinv(result0) && len(result0.items) == 0 && result0.weight == 0 && result0.maxWeight == maxWeight && result0.maxSize == maxSize && result0.onEvict == nil
+//@   ensures  result1 == nil ==> fresh(result0) && lruinv(result0) && len(result0.items) == 0 && result0.weight == 0 && result0.maxWeight == maxWeight && result0.maxSize == maxSize && result0.onEvict == nil
 //@
 //@ // Purge: every entry is reported to the callback exactly once and the cache is empty
 //@ func (*Cache).Purge
-//@   requires cinv(c)
+//@   requires lruinv(c)
 //@   modifies c.items[*], c.weight, llen[c.evictList], nEvict, gEvictKey, gEvictVal
-//@   ensures  cinv(c) && len(c.items) == 0 && c.weight == 0
+//@   ensures  lruinv(c) && len(c.items) == 0 && c.weight == 0
 //@   ensures  [evict] c.onEvict != nil ==> nEvict == old(nEvict) + old(len(c.items))
 //@   ensures  [noevict] c.onEvict == nil ==> nEvict == old(nEvict)
 //@   loop 1 modifies c.items[*], c.weight, nEvict, gEvictKey, gEvictVal
